@@ -66,7 +66,7 @@ struct HistWorld : World {
         p.cfg["salt"] = (long)cfg.below(16);
         int len = 6 + (int)cfg.below(thorough ? 115 : 75);
         bool heavy = prop == "C01" || prop == "C05" || prop == "C08" || prop == "C09" || prop == "C10" || prop == "C12" || prop == "C15" || prop == "C16";
-        p.cfg["battery_every"] = heavy && len > 40 ? 3 : 1;
+        p.cfg["battery_every"] = prop == "C05" ? (len > 30 ? 5 : 2) : (heavy && len > 40 ? 3 : 1);
         std::vector<int> wv;
         for (auto &x : w) wv.push_back(x.w);
         // a short build-up prefix so that most runs have cells early
